@@ -246,7 +246,7 @@ def oracle(case, obs, flags):
         res = float(np.linalg.norm(b - A @ X[:, j]))
         # rounding of the normal equations (cond(H)^2 eps), and - only when Arnoldi stopped before min(m, n) steps because the
         # remainder fell below tol * ||A q_0|| - the accuracy the caller's tol asks for
-        slack = (1e-6 + 1e-13 * kap * kap + (30 * tol * kap if (stopped_early or early[j]) else 0.0)) * r0n + floor
+        slack = (1e-6 + 1e-11 * kap * kap + (30 * tol * kap if (stopped_early or early[j]) else 0.0)) * r0n + floor
         info["excess_worst"] = max(info.get("excess_worst", 0.0), (res - ro) / r0n if r0n > 0 else 0.0)
         info["ratio_worst"] = max(info.get("ratio_worst", 0.0), res / r0n if r0n > 0 else 0.0)
         if res > ro * (1 + 1e-6) + slack:
